@@ -311,7 +311,7 @@ def _default(f_type: Type, f_value: Any, config_cls: Type[BaseConfig]) -> Any:
             x: f_type = None  # type: ignore
 
             class Config(config_cls):  # type: ignore
-                pass
+                serialize_by_alias = False
 
     else:
 
@@ -320,7 +320,7 @@ def _default(f_type: Type, f_value: Any, config_cls: Type[BaseConfig]) -> Any:
             x: f_type  # type: ignore
 
             class Config(config_cls):  # type: ignore
-                pass
+                serialize_by_alias = False
 
     # with omit_none / omit_default in effect a None value is not emitted
     return CC(f_value).to_dict().get("x")
